@@ -137,6 +137,7 @@ type webLayer struct {
 	Echo *echo.Echo
 	Core *security.ServiceCore
 	Svc  *web.WebService
+	TPS  *security.TokenProviders
 }
 
 const (
@@ -252,7 +253,7 @@ func OpenWebHub(dir, secDir string, knobs map[string]int64, secure bool) (h *Hub
 	if err != nil {
 		return nil, err
 	}
-	h.Full.Web.Svc, h.Full.Web.Echo, h.Full.Web.Core = ws, ws.VerifEcho(), core
+	h.Full.Web.Svc, h.Full.Web.Echo, h.Full.Web.Core, h.Full.Web.TPS = ws, ws.VerifEcho(), core, tps
 	return h, nil
 }
 
